@@ -1,4 +1,5 @@
 import TabulaModel.Lemmas.CMap
+import TabulaModel.Model.CMapRender
 /-!
 Round trip of a rendered `bfchar` section (one entry per line) through the CMap model:
 the harness-independent renderer, hex lemmas, `parseBfCharSection`, `lookupString`.
@@ -6,39 +7,7 @@ the harness-independent renderer, hex lemmas, `parseBfCharSection`, `lookupStrin
 namespace Tabula.CMap
 open Tabula.UTF16
 
-/-! ## the renderer (written from the CMap syntax, not from tabula) -/
-
-/-- upper-case hex digit -/
-def hexDigit (d : Nat) : Nat := if d < 10 then 48 + d else 55 + d
-
-/-- hex text of a byte string -/
-def hexOfBytes : List Nat → Str
-  | [] => []
-  | b :: t => hexDigit (b / 16) :: hexDigit (b % 16) :: hexOfBytes t
-
-/-- big-endian bytes of a code of width `w` -/
-def codeBytes : Nat → Nat → List Nat
-  | 0, _ => []
-  | w + 1, c => codeBytes w (c / 256) ++ [c % 256]
-
-/-- `<src>` token text of code `c` -/
-def srcTok (w c : Nat) : Str := hexOfBytes (codeBytes w c)
-
-/-- `<dst>` token text: UTF-16BE of the target text -/
-def dstTok (t : List Nat) : Str := hexOfBytes (bytesBE (encodeUnits t))
-
-/-- one line `<src> <dst>\n` -/
-def renderLine (w : Nat) (e : Nat × List Nat) : Str :=
-  60 :: (srcTok w e.1 ++ 62 :: 32 :: 60 :: (dstTok e.2 ++ [62, 10]))
-
-/-- the body of a `beginbfchar … endbfchar` section, one entry per line -/
-def renderSection (w : Nat) : List (Nat × List Nat) → Str
-  | [] => []
-  | e :: es => renderLine w e ++ renderSection w es
-
-/-- the hex tokens of that section -/
-def tokensOf (w : Nat) (es : List (Nat × List Nat)) : List Str :=
-  es.flatMap fun e => [srcTok w e.1, dstTok e.2]
+/-! the renderer (written from the CMap syntax, not from tabula) is in `Model/CMapRender.lean` -/
 
 /-! ## hex digits -/
 
